@@ -370,7 +370,7 @@ pub fn random_behaviour(r: &mut Rng, t: &mut Trace, steps: usize) {
         let other = if r.chance(1, 2) { tok(&w.tokens[0]) } else { nat("ub") };
         let infos = if r.chance(1, 2) { json!([nat("uc"), other]) } else { json!([other, nat("uc")]) };
         t.run(&mut w, json!({"op": "fac_create_pair", "caller": "owner", "infos": infos, "commission": c,
-                             "whitelist": ["alice", "bob"], "min0": st(r.below(3) as u128), "min1": st(0)}));
+                             "whitelist": ["alice", "bob"], "min0": st(1 + r.below(3) as u128), "min1": st(5 + r.below(3) as u128)}));
     }
     for _ in 0..steps {
         let i = r.below(np as u64) as usize;
@@ -1243,6 +1243,24 @@ pub fn routes_behaviour(r: &mut Rng, t: &mut Trace) {
             }
         }
     }
+    // the recipient is a pool of the route that paid out the final asset in an earlier hop: [A->B on P, B->C on Q, C->B on Q]
+    // delivered to P with a minimum of 1 - P's balance of B falls over the route, so the minimum is not met and the route
+    // must fail
+    for start in assets.iter() {
+        for route in chains_from(&w, start, 2).iter().take(2) {
+            let (a, b) = route[0].clone();
+            let (_b, c) = route[1].clone();
+            let p_ab = (0..np).find(|&j| { let (x, y) = pair_infos(&w, j); (x == a && y == b) || (x == b && y == a) });
+            if let Some(j) = p_ab {
+                let back = vec![(a.clone(), b.clone()), (b.clone(), c.clone()), (c.clone(), b.clone())];
+                let to = Value::String(w.pairs[j].addr.clone());
+                for min in [st(1), st(mag / 2000)] {
+                    let op = op_route(&w, "carol", &back, mag / 1000 + 23, min, to.clone());
+                    t.run(&mut w, op);
+                }
+            }
+        }
+    }
     // dust routes with the smallest meaningful minimum: the last hop may pay out nothing (a pair accepts a swap whose
     // return rounds to zero), and then a minimum of 1 must make the whole route fail
     for start in assets.iter() {
@@ -1413,6 +1431,20 @@ pub fn registry_behaviour(r: &mut Rng, t: &mut Trace, max_pairs: usize, index: u
             t.run(&mut w, json!({"op": "q_native_decimals", "denom": alias}));
         }
         t.run(&mut w, json!({"op": "q_fac_pair", "infos": [nat(&alias), tok(&alias)]}));
+    }
+    // re-registrations to exactly the decimals the base tokens have (6, 18, 0): for pairs holding such a token next to
+    // the denom the new value equals the OTHER asset's decimals, in either position
+    for d in denoms.iter().take(3) {
+        for dec in [6u64, 18, 0, 7] {
+            t.run(&mut w, json!({"op": "fac_add_native", "caller": "owner", "denom": d, "decimals": dec}));
+        }
+    }
+    // ... and what the factory answers for those pairs must still be what the pairs say about themselves
+    for d in denoms.iter().take(3) {
+        for tk in w.tokens.clone().iter() {
+            t.run(&mut w, json!({"op": "q_fac_pair", "infos": [tok(tk), nat(d)]}));
+            t.run(&mut w, json!({"op": "q_fac_pair", "infos": [nat(d), tok(tk)]}));
+        }
     }
     // one live cw20 token named twice, in two letter cases (addresses canonicalise case-insensitively): still two identical
     // assets, in either order
